@@ -25,6 +25,11 @@ type c16Commit struct {
 	G, T int // indexes into the name alphabets
 	P    int32
 	V    int // value variant
+	// Pair: a second partition entry in the SAME OffsetCommit request (T2/P2), committed
+	// with offset 3 and NULL metadata (the wire distinguishes null from "")
+	Pair bool
+	T2   int
+	P2   int32
 }
 
 var c16Groups = []string{"g", "a", "a:b", "a/offsets/b", "g é"}
@@ -114,12 +119,36 @@ func (s *c16Sys) commit(c c16Commit) (int16, error) {
 	meta := c16Vals[c.V].Meta
 	pp.Metadata = &meta
 	tp.Partitions = append(tp.Partitions, pp)
-	req.Topics = append(req.Topics, tp)
+	if c.Pair {
+		p2 := kmsg.NewOffsetCommitRequestTopicPartition()
+		p2.Partition = c.P2
+		p2.Offset = 3
+		p2.Metadata = nil
+		if c.T2 == c.T {
+			tp.Partitions = append(tp.Partitions, p2)
+			req.Topics = append(req.Topics, tp)
+		} else {
+			req.Topics = append(req.Topics, tp)
+			t2 := kmsg.NewOffsetCommitRequestTopic()
+			t2.Topic = c16Topics[c.T2]
+			t2.Partitions = append(t2.Partitions, p2)
+			req.Topics = append(req.Topics, t2)
+		}
+	} else {
+		req.Topics = append(req.Topics, tp)
+	}
 	resp, err := s.coord.OffsetCommit(context.Background(), req)
 	if err != nil {
 		return 0, err
 	}
-	return resp.Topics[0].Partitions[0].ErrorCode, nil
+	for _, rt := range resp.Topics {
+		for _, rp := range rt.Partitions {
+			if rp.ErrorCode != 0 {
+				return rp.ErrorCode, nil
+			}
+		}
+	}
+	return 0, nil
 }
 
 func (s *c16Sys) fetch(g, t string, p int32) (int64, string, int16, error) {
@@ -182,11 +211,17 @@ func c16Run(rep *vh.Report, kind string, hist []c16Commit) {
 		}
 		if code == 0 {
 			ref[c16Key{c16Groups[c.G], c16Topics[c.T], c.P}] = c16Vals[c.V]
+			if c.Pair {
+				ref[c16Key{c16Groups[c.G], c16Topics[c.T2], c.P2}] = c16Val{3, ""}
+			}
 		}
 	}
 	distinctKeys := map[c16Key]bool{}
 	for _, c := range hist {
 		distinctKeys[c16Key{c16Groups[c.G], c16Topics[c.T], c.P}] = true
+		if c.Pair {
+			distinctKeys[c16Key{c16Groups[c.G], c16Topics[c.T2], c.P2}] = true
+		}
 	}
 	var sig []string
 	for _, g := range c16Groups {
@@ -259,6 +294,14 @@ func TestVerifC16(t *testing.T) {
 					events = append(events, c16Commit{G: g, T: tp, P: p, V: v})
 				}
 			}
+		}
+	}
+	// multi-partition requests: first entry with/without metadata, second entry (other
+	// partition of the same topic, or another topic) with null metadata
+	for _, g := range []int{0, 2} {
+		for _, v := range []int{0, 1} {
+			events = append(events, c16Commit{G: g, T: 0, P: 0, V: v, Pair: true, T2: 0, P2: 1})
+			events = append(events, c16Commit{G: g, T: 0, P: 1, V: v, Pair: true, T2: 1, P2: 0})
 		}
 	}
 	rep.SetInfo("commit_alphabet", len(events))
